@@ -183,6 +183,35 @@ def run(ck: Check):
                 if abs(is3 - p3) > 6 * sd:
                     ck.disagree("raw gumbel_hard: the frequency of the sampled gate depends on the temperature (it must be softmax(logits))",
                                 case, expected=p3, observed=is3, signature={"what": "raw-gate-frequency", "layer": "dense"})
+    # the sampling mode is read when the layer is CALLED: a training forward under 'soft', then the mode switched to 'gumbel_hard' on the same
+    # object (raw and Walsh, dense and conv) gives single gates (Boolean outputs on Boolean inputs) that differ between draws; back to 'soft'
+    # the output is the deterministic relaxation again
+    for par in ("raw", "walsh"):
+        for name in ("dense", "conv2d"):
+            torch.manual_seed(ck.seed + 91)
+            if name == "dense":
+                l = LogicDense(3, 60, device="cpu", parametrization=par, weight_init="random", forward_sampling="soft")
+                xb = torch.tensor(nets.all_rows(3), dtype=torch.float32)
+            else:
+                l = LogicConv2d(in_dim=(3, 3), device="cpu", channels=1, num_kernels=8, tree_depth=2, receptive_field_size=2, parametrization=par,
+                                weight_init="random", forward_sampling="soft")
+                xb = (torch.rand(16, 1, 3, 3) > 0.5).float()
+            l.train()
+            with torch.no_grad():
+                y_soft0 = l(xb)
+                l.forward_sampling = "gumbel_hard"
+                ys = [l(xb) for _ in range(6)]
+                l.forward_sampling = "soft"
+                y_soft1 = l(xb)
+            case = {"layer": name, "param": par, "sequence": "soft forward, switch to gumbel_hard, switch back"}
+            ck.case(case, nontrivial=True, kind="mode-switch")
+            frac = max(float(torch.minimum(y.abs(), (y - 1).abs()).max()) for y in ys)
+            same = all(torch.equal(ys[0], y) for y in ys[1:])
+            if frac > 1e-6 or same or not torch.equal(y_soft0, y_soft1):
+                ck.disagree("the sampling mode assigned to a layer after a training forward is not the one in use (outputs not single gates under gumbel_hard, "
+                            "no variation between draws, or the soft output changed)", dict(case, farthest_from_0_1=frac, draws_identical=same,
+                                                                                     soft_restored=bool(torch.equal(y_soft0, y_soft1))),
+                            signature={"layer": name, "param": par, "mode": "gumbel_hard", "what": "mode-switch"})
     # reduced precision (a layer converted with .bfloat16() / .half()): the noisy logits have 8 / 11 significant bits, so two gates tie
     # for the row maximum in about one row of a few hundred - the hard sample must still be ONE gate (a mask of the maxima would
     # select two or three).  Checked on the sampling primitive and through a dense layer and a convolution
